@@ -304,10 +304,36 @@ def rule_future(ck, fi):
     ck.floor("C46.future-full-format", len(tests), 1, "future tests (`date > now`)")
     is_full = lambda n: n.kind == "stmt" and isinstance(n.ast, ast.Assign) and "full_format" in q.assigned_paths(n.ast) and q.is_const(n.ast.value, True)
     is_clamp = lambda n: n.kind == "stmt" and isinstance(n.ast, ast.Assign) and date in q.assigned_paths(n.ast) and q.dotted(n.ast.value) == now
-    diffs = [n for n in cfg.stmt_nodes(lambda n: n.kind == "stmt" and isinstance(n.ast, ast.Assign) and isinstance(n.ast.value, ast.BinOp) and isinstance(n.ast.value.op, ast.Sub)
-                                       and q.dotted(n.ast.value.left) == now and q.dotted(n.ast.value.right) == date)]
+    # the elapsed time: the timedelta whose .seconds / .days feed the phrases.  Both operands must be in the same time base:
+    # (now, date) or both shifted by the same offset (local_now, local_date).
+    def base_of(x, depth=0):
+        """('now'|'date', shift text) for a name that is now/date or one of them minus a timedelta; None if unknown"""
+        d_ = q.dotted(x)
+        if d_ == now:
+            return ("now", "")
+        if d_ == date:
+            return ("date", "")
+        if isinstance(x, ast.Name) and depth < 3:
+            df = unique_def(fi, x.id)
+            if isinstance(df, ast.BinOp) and isinstance(df.op, (ast.Sub, ast.Add)):
+                b = base_of(df.left, depth + 1)
+                if b is not None and isinstance(df.right, ast.Call) and q.call_attr(df.right) == "timedelta":
+                    return (b[0], b[1] + ("-" if isinstance(df.op, ast.Sub) else "+") + q.unparse(df.right))
+        return None
+
+    sec_bases = {q.unparse(n_.value.value) for n_ in own_nodes(fi.node) if isinstance(n_, ast.Assign) and isinstance(n_.value, ast.Attribute) and n_.value.attr in ("seconds", "days")}
+    diffs = []
+    for n in cfg.stmt_nodes(lambda n: n.kind == "stmt" and isinstance(n.ast, ast.Assign) and isinstance(n.ast.value, ast.BinOp) and isinstance(n.ast.value.op, ast.Sub)
+                            and len(n.ast.targets) == 1 and isinstance(n.ast.targets[0], ast.Name) and n.ast.targets[0].id in sec_bases):
+        diffs.append(n)
     if len(diffs) != 1:
-        raise AnalysisError("format_date: expected one `difference = now - date`")
+        raise AnalysisError("format_date: expected one elapsed-time difference feeding .seconds/.days, found %d" % len(diffs))
+    lb, rb = base_of(diffs[0].ast.value.left), base_of(diffs[0].ast.value.right)
+    if lb is None or rb is None:
+        raise AnalysisError("format_date: operands of the elapsed-time difference %s are not traceable to now / date" % q.unparse(diffs[0].ast.value))
+    ck.ob("C46.same-time-scale", fi, diffs[0].ast, lb[0] == "now" and rb[0] == "date" and lb[1] == rb[1],
+          "the elapsed time is now - date with both operands in the same time base (left: %s%s, right: %s%s); a one-sided gmt_offset shift moves every relative phrase" % (lb[0], lb[1] or "", rb[0], rb[1] or ""),
+          construct="elapsed %s%s - %s%s" % (lb[0], " shifted" if lb[1] else "", rb[0], " shifted" if rb[1] else ""))
 
     def tr(n, v):
         if v == "future" and (is_full(n) or is_clamp(n)):
@@ -739,6 +765,7 @@ MUTANTS = [
     ("minutes truncated instead of rounded", _m("format_date", replace_expr(lambda n: isinstance(n, ast.Call) and _src(n) == "round(seconds / 60.0)", lambda n: parse_expr("int(seconds / 60.0)"))), "C46.phrase-unit"),
     ("hours by floor division", _m("format_date", replace_expr(lambda n: isinstance(n, ast.Call) and _src(n) == "round(seconds / (60.0 * 60))", lambda n: parse_expr("seconds // 3600"))), "C46.phrase-unit"),
     ("seeded C46-adv2: aware datetimes in other zones re-labelled as UTC", _m("format_date", replace_expr(lambda n: isinstance(n, ast.Compare) and _src(n) == "date.tzinfo is None", lambda n: parse_expr("date.tzinfo is not datetime.timezone.utc"))), "C46.same-time-scale"),
+    ("seeded C46-adv6: elapsed time taken between the offset-shifted now and the unshifted date", _m("format_date", replace_stmt(lambda st: isinstance(st, ast.Assign) and _src(st) == "difference = now - date", lambda st: [parse_stmt("difference = local_now - date")])), "C46.same-time-scale"),
     ("numeric timestamps converted in local time then labelled UTC", _m("format_date", replace_expr(lambda n: isinstance(n, ast.Call) and _src(n.func).endswith("fromtimestamp"), lambda n: ast.Call(func=n.func, args=n.args[:1], keywords=[]))), "C46.same-time-scale"),
     ("undo F26a repair: clock-skew window tested on .seconds alone", _m("format_date", replace_expr(lambda n: isinstance(n, ast.Call) and _src(n).endswith(".total_seconds()"), lambda n: ast.Attribute(value=n.func.value, attr="seconds", ctx=ast.Load()))), "C46.seconds-with-days"),
     ("seeded C46-adv3: ungrouped shortcut decided on the signed value", _m("friendly_number", replace_expr(lambda n: isinstance(n, ast.Compare) and "self.code not in" in _src(n), lambda n: parse_expr("self.code not in ('en', 'en_US') or value < 1000"))), ("C46.grouping", "C46.sign-free-grouping")),
